@@ -334,6 +334,11 @@ func (s *Script) render(ob *Obligation, extra []string, getValues []string) stri
 		c := prefix[i]
 		switch c.kind {
 		case cAssume:
+			if ob.Cover && (strings.Contains(c.text, "(forall ") || strings.Contains(c.text, "(exists ")) {
+				// vacuity checks ignore quantified assumptions: a solver cannot return `sat` in their
+				// presence.  (They are invariants over tables, satisfiable by empty tables.)
+				continue
+			}
 			include[i] = true
 			symbolsOf(c.text, need)
 		case cOblig:
@@ -469,7 +474,14 @@ func runSolver(sp solverSpec, file string, timeoutMs int) solveResult {
 	_ = cmd.Run()
 	secs := time.Since(t0).Seconds()
 	o := out.String()
-	first := strings.TrimSpace(strings.SplitN(o, "\n", 2)[0])
+	first := ""
+	for _, ln := range strings.Split(o, "\n") {
+		ln = strings.TrimSpace(ln)
+		if ln == "sat" || ln == "unsat" || ln == "unknown" || ln == "timeout" {
+			first = ln
+			break
+		}
+	}
 	st := "error"
 	switch {
 	case first == "unsat":
